@@ -87,7 +87,7 @@ CLAIMED = {
     ),
     "C06": (
         "Lean 4 theorems over an executable model of bitvec.py / the word-instruction cases of SEVM.run (op_exact: every instruction, every operand representation, every sound simplifier, every standard interpretation), model tied to the code by a differential run of one-instruction SEVM executions against the Lean model and the Lean EVM spec",
-        "Proof on the model for all 2^256 operand values and all representation combinations (35 theorems: op_exact for all 25 instructions, abstraction_axioms_valid, fast_eq_slow, bool coercions, exp_by_const, promptness bound; Props.C06Algebra states the named laws outright as corollaries for every representation pair: by_zero_gives_zero / modzero_gives_zero for divisors and moduli that merely denote 0, commutative_ops, compare_mirror, iszero_is_eq_zero, self_cancel, oversize_shift, byte_out_of_range, exp_zero_exponent, sdiv_overflow_wraps, and spec_closed / result_in_range: Spec.Word and the model map 256-bit words to 256-bit words for all 25 instructions); the tie to the code is a correspondence run (about 10^4 cases per quick run, all 25 instructions x 9 operand representations, boundary + harvested-literal + random values, two valuations per symbolic case) plus probes for promptness and for the shared TRUE/FALSE singletons",
+        "Proof on the model for all 2^256 operand values and all representation combinations (36 theorems: op_exact for all 25 instructions, abstraction_axioms_valid, fast_eq_slow, bool coercions, exp_by_const, promptness bound; Props.C06Algebra states the named laws outright as corollaries for every representation pair: by_zero_gives_zero / modzero_gives_zero for divisors and moduli that merely denote 0, commutative_ops, compare_mirror, iszero_is_eq_zero, self_cancel, oversize_shift, byte_out_of_range, exp_zero_exponent, sdiv_overflow_wraps, not_involutive, and spec_closed / result_in_range: Spec.Word and the model map 256-bit words to 256-bit words for all 25 instructions); the tie to the code is a correspondence run (about 10^4 cases per quick run, all 25 instructions x 9 operand representations, boundary + harvested-literal + random values, two valuations per symbolic case) plus probes for promptness and for the shared TRUE/FALSE singletons",
         "Trusted: Lean kernel (axioms propext, Classical.choice, Quot.sound), Spec.Word as the meaning of the EVM, z3 simplify (hypothesis SimpSound), the hand-written model Model.BitVecOps (validated by correspondence, not generated), harness and z3-AST evaluator. Symbolic SIGNEXTEND size is rejected by design (NotConcreteError) and outside the claim; abstraction=None branches are not reached from SEVM.run",
         "DESIGN.md §4 C06",
     ),
